@@ -14,6 +14,7 @@
   Helper lemmas: PosterModel/Lemmas/World.lean, WorldRun.lean.
 -/
 import PosterModel.Lemmas.WorldRun
+import PosterModel.Lemmas.WorldEx
 
 set_option linter.unusedVariables false
 set_option linter.unusedSimpArgs false
@@ -307,6 +308,90 @@ theorem run_poll_outcome (w : World) (s : Bool) (ht : w.task = .running s) :
       refine ⟨fun _ => ⟨pre0, _, by simp [hp0], hq0, Or.inl ⟨_, rfl, Or.inr (Or.inr (Or.inl rfl))⟩⟩,
         fun hn => absurd rfl hn⟩
 
+/-- **A server DISCONNECT ends `run()`**: with reason 0 it returns `Ok(())`, with any other reason
+    `Err(Disconnected(d))` where `d` is the decoded packet itself — reason, session expiry, reason string,
+    server reference and user properties as received. Nothing is written. -/
+theorem server_disconnect_returns (f : Nat) (w : World) (rx' : Rx) (rd' : List ReadEv) (fr : Bytes)
+    (d : DisconnectRx) (hq : w.queue = []) (hs : w.senders ≠ 0)
+    (hp : pollNext w.rx w.reader = (rx', rd', .item fr)) (hd : decodeRx fr = .ok (.disconnect d)) :
+    w.runLoop (f + 1) =
+      ({ w with rx := rx', reader := rd' }).finish .run (if d.reason = 0 then .ok else .disconnected d) := by
+  rw [World.runLoop_succ]
+  by_cases hr : d.reason = 0 <;>
+    simp [World.runIter, hq, hs, hp, hd, World.runHandler_eq, Ctx.handlePkt, World.applyEffs, hr,
+      World.flowRet]
+
+/-- **Undecodable input ends `run()` with an error** (and not with a panic): a frame the decoder rejects makes
+    `run()` return a codec error; **end of stream** (or a read error, or a malformed length field) makes it
+    return `SocketClosed`. In both cases nothing is written. -/
+theorem bad_input_returns_error (f : Nat) (w : World) (rx' : Rx) (rd' : List ReadEv) (hq : w.queue = [])
+    (hs : w.senders ≠ 0) :
+    (∀ fr, pollNext w.rx w.reader = (rx', rd', .item fr) → decodeRx fr = .err →
+      w.runLoop (f + 1) = ({ w with rx := rx', reader := rd' }).finish .run (.err .codecError)) ∧
+    (pollNext w.rx w.reader = (rx', rd', .none) →
+      w.runLoop (f + 1) = ({ w with rx := rx', reader := rd' }).finish .run (.err .socketClosed)) := by
+  refine ⟨fun fr hp hd => ?_, fun hp => ?_⟩
+  · rw [World.runLoop_succ]; simp [World.runIter, hq, hs, hp, hd]
+  · rw [World.runLoop_succ]; simp [World.runIter, hq, hs, hp]
+
+/-! ## Non-vacuity: the hypotheses are satisfiable and the conclusions are not trivial (worlds of Lemmas/WorldEx.lean) -/
+section NonVacuity
+open Ex
+
+/-- a CONNACK with reason 0 makes `connect()` return it -/
+example : ((wConn connackOk).awaitFirst .connect {} {}).out = [.ret .connect (.connack kOk)] := by
+  rw [(first_response_mapping (wConn connackOk) .connect {} {} {} []).1 connackOk kOk
+    pn_connackOk dec_connackOk (by decide) (by decide)]
+  rfl
+/-- a CONNACK with reason 0x87 makes `connect()` return `ConnectError` carrying it -/
+example : ((wConn connackRefused).awaitFirst .connect {} {}).out = [.ret .connect (.connectError kRefused)] := by
+  rw [(first_response_mapping (wConn connackRefused) .connect {} {} {} []).2.1 connackRefused kRefused
+    pn_connackRefused dec_connackRefused (by decide)]
+  rfl
+/-- half a CONNACK: `connect()` stays pending -/
+example : ((wConn [0x20]).awaitFirst .connect {} {}).task = .connecting .connect {} {} true :=
+  ((first_response_mapping (wConn [0x20]) .connect {} {} _ []).2.2.2.2.2.2 pn_pending).1
+/-- server DISCONNECT 0x8B: `run()` returns `Disconnected` with that reason -/
+example : ((wServe [.data disconnect8B]).runLoop 3).out = [.ret .run (.disconnected { reason := 0x8B })] := by
+  rw [server_disconnect_returns 2 (wServe [.data disconnect8B]) {} [] disconnect8B { reason := 0x8B } rfl
+    (by decide) pn_disconnect8B dec_disconnect8B]
+  rfl
+/-- server DISCONNECT 0: `run()` returns `Ok` -/
+example : ((wServe [.data disconnect0]).runLoop 3).out = [.ret .run .ok] := by
+  rw [server_disconnect_returns 2 (wServe [.data disconnect0]) {} [] disconnect0 {} rfl
+    (by decide) pn_disconnect0 dec_disconnect0]
+  rfl
+/-- an undecodable frame: `run()` returns a codec error -/
+example : ((wServe [.data badPuback]).runLoop 3).out = [.ret .run (.err .codecError)] := by
+  rw [(bad_input_returns_error 2 (wServe [.data badPuback]) {} [] rfl (by decide)).1 badPuback pn_badPuback
+    dec_badPuback]
+  rfl
+/-- end of stream: `run()` returns `SocketClosed` -/
+example : ((wServe [.eof]).runLoop 3).out = [.ret .run (.err .socketClosed)] := by
+  rw [(bad_input_returns_error 2 (wServe [.eof]) {} [.eof] rfl (by decide)).2 pn_eof]
+  rfl
+/-- no handle left: `run()` returns `HandleClosed` (the hypotheses of `handleClosed_only_when_no_sender` hold) -/
+example : (({ wServe [] with handles := [] } : World).runLoop 3).out = [.ret .run (.err .handleClosed)] := by
+  rw [handleClosed_when_no_sender 2 _ rfl (by decide)]; rfl
+/-- the user's DISCONNECT: written, its caller completed and woken, `Ok` returned, the PINGREQ queued behind it
+    is not handled -/
+example : (wBye.runLoop 3).out = [.wire [0xE0, 0], .ret .run .ok] ∧ (wBye.runLoop 3).slot 4 = some (.full .unit) ∧
+    (wBye.runLoop 3).queue = [.awaitAck (actionId 13 0) pingreqBytes 6] ∧ Task.op 2 ∈ (wBye.runLoop 3).woken := by
+  rw [user_disconnect_returns_ok 2 wBye [0xE0, 0] 4 _ rfl (by decide) (by decide) (by decide)]
+  decide
+/-- none of the causes: `run()` stays pending and returns nothing -/
+example : ((wServe []).pollCtx).task = .running true ∧ ((wServe []).pollCtx).out = [] := by
+  have h : pollNext {} [] = ({}, [], .pending) := World.pollNext_idle_nil {} rfl
+  have : (wServe []).pollCtx = { wServe [] with readerReg := true, queueReg := true } := by
+    simp only [World.pollCtx, wServe, World.pollRun, ↓reduceIte]
+    rw [show World.loopFuel _ = 3 + 1 from rfl, World.runLoop_succ]
+    simp [World.runIter, World.senders, h]
+  rw [this]; exact ⟨rfl, rfl⟩
+/-- an invalid AUTH request is refused before anything is written -/
+example : World.reqValid .authorize {} { reason := some 24 } = false := by decide
+
+end NonVacuity
+
 #print axioms handlePkt_flow
 #print axioms handleMsg_flow
 #print axioms flowRet_mapping
@@ -321,5 +406,7 @@ theorem run_poll_outcome (w : World) (s : Bool) (ht : w.task = .running s) :
 #print axioms connect_writes_then_awaits
 #print axioms reqValid_def
 #print axioms run_poll_outcome
+#print axioms server_disconnect_returns
+#print axioms bad_input_returns_error
 
 end Poster
